@@ -60,6 +60,31 @@ Definition norm_opt (o : option str) : option str :=
 Fixpoint repeat_str (s : str) (n : nat) : str :=
   match n with O => [] | S k => s ++ repeat_str s k end.
 
+(* rendering of parameters / attributes, parametrised by the rendering of a Wikicode *)
+Section With.
+Variable sc : list node -> str.
+Definition str_param_with (p : list node * list node * bool) : str :=
+  let '(k, v, showkey) := p in if showkey then sc k ++ s_eq ++ sc v else sc v.
+Fixpoint join_params_with (ps : list (list node * list node * bool)) : str :=
+  match ps with
+  | [] => []
+  | p :: t => match t with [] => str_param_with p | _ => str_param_with p ++ s_pipe ++ join_params_with t end
+  end.
+Definition str_attr_with (a : list node * option (list node) * option str * (str * str * str)) : str :=
+  let '(name, value, quotes, (pf, pb, pa)) := a in
+  let result := pf ++ sc name ++ pb in
+  match value with
+  | Some v =>
+      match norm_opt quotes with
+      | Some q => result ++ s_eq ++ pa ++ q ++ sc v ++ q
+      | None => result ++ s_eq ++ pa ++ sc v
+      end
+  | None => result
+  end.
+Fixpoint str_attrs_with (l : list (list node * option (list node) * option str * (str * str * str))) : str :=
+  match l with [] => [] | a :: t => str_attr_with a ++ str_attrs_with t end.
+End With.
+
 Fixpoint str_node (n : node) : str :=
   let str_code := fix str_code (c : list node) : str :=
     match c with [] => [] | x :: t => str_node x ++ str_code t end in
@@ -91,33 +116,12 @@ Fixpoint str_node (n : node) : str :=
       else if hexadecimal then s_amp_hash ++ hex_char ++ value ++ s_semi
       else s_amp_hash ++ value ++ s_semi
   | NTemplate name params =>
-      let str_param := fun (p : list node * list node * bool) =>
-        let '(k, v, showkey) := p in
-        if showkey then str_code k ++ s_eq ++ str_code v else str_code v in
-      let fix join (ps : list (list node * list node * bool)) : str :=
-        match ps with
-        | [] => []
-        | [p] => str_param p
-        | p :: t => str_param p ++ s_pipe ++ join t
-        end in
       match params with
       | [] => s_lbrace2 ++ str_code name ++ s_rbrace2
-      | _ => s_lbrace2 ++ str_code name ++ s_pipe ++ join params ++ s_rbrace2
+      | _ => s_lbrace2 ++ str_code name ++ s_pipe ++ join_params_with str_code params ++ s_rbrace2
       end
   | NTag tag contents attrs wiki_markup self_closing invalid implicit padding closing_tag sep cwm =>
-      let str_attr := fun (a : list node * option (list node) * option str * (str * str * str)) =>
-        let '(name, value, quotes, (pf, pb, pa)) := a in
-        let result := pf ++ str_code name ++ pb in
-        match value with
-        | Some v =>
-            match norm_opt quotes with
-            | Some q => result ++ s_eq ++ pa ++ q ++ str_code v ++ q
-            | None => result ++ s_eq ++ pa ++ str_code v
-            end
-        | None => result
-        end in
-      let fix str_attrs (l : list (list node * option (list node) * option str * (str * str * str))) : str :=
-        match l with [] => [] | a :: t => str_attr a ++ str_attrs t end in
+      let str_attrs := str_attrs_with str_code in
       match norm_opt wiki_markup with
       | Some wm =>
           if self_closing then wm ++ str_attrs attrs ++ padding ++ opt_str sep
